@@ -797,8 +797,12 @@ func (fc *funcContext) translateExpr(expr ast.Expr) *expression {
 			}
 		}
 		switch exprType.Underlying().(type) {
-		case *types.Struct, *types.Array:
+		case *types.Struct:
 			return fc.translateExpr(e.X)
+		case *types.Array:
+			// A pointer to an array is the array itself; unlike a nil struct pointer
+			// the nil array pointer does not fail on element access by itself.
+			return fc.formatExpr("(%1e.nilCheck, %1e)", e.X)
 		}
 		return fc.formatExpr("%e.$get()", e.X)
 
@@ -1352,8 +1356,11 @@ func (fc *funcContext) translateImplicitConversion(expr ast.Expr, desiredType ty
 
 func (fc *funcContext) translateConversionToSlice(expr ast.Expr, desiredType types.Type) *expression {
 	switch fc.typeOf(expr).Underlying().(type) {
-	case *types.Array, *types.Pointer:
+	case *types.Array:
 		return fc.formatExpr("new %s(%e)", fc.typeName(desiredType), expr)
+	case *types.Pointer:
+		// Slicing a nil array pointer panics.
+		return fc.formatExpr("new %1s((%2e.nilCheck, %2e))", fc.typeName(desiredType), expr)
 	}
 	return fc.translateExpr(expr)
 }
